@@ -33,6 +33,14 @@ class SDWorld(World):
         super().__init__()
         self.log = []
 
+    def truthy(self, it, o):
+        if o.kind == "resource":
+            # the wrapped resource is somebody else's object: it may be falsy (an empty CompositeDisposable has len() 0); the same answer every time
+            if not hasattr(self, "_truth"):
+                self._truth = it.ctx.choose(2, "the wrapped resource is truthy / falsy") == 0
+            return self._truth
+        return True
+
     def call(self, it, o, method, args, kwargs):
         if o.kind == "scheduler" and method in ("schedule", "schedule_relative", "schedule_absolute"):
             self.log.append(("schedule", method, list(args), dict(kwargs)))
